@@ -56,6 +56,8 @@
 #include <ctype.h>
 #include <errno.h>
 #include <sched.h>
+#include <signal.h>
+#include <exception>
 
 using namespace cppcms::sessions;
 using cppcms::impl::tcp_cache_service;
@@ -514,11 +516,23 @@ static void conc_round(vt::out &o,std::string const &be,int threads,int nops,int
 	vt::fake_now=vt::clock_base;
 }
 
+// a crash inside the library is part of what is judged: the lines written so far stay, a Died line ends the trace
+static vt::out *gout=0;
+static void on_crash(int sig)
+{
+	if(gout && gout->f) { fprintf(gout->f,"{\"e\":\"Died\",\"sig\":%d}\n",sig); fflush(gout->f); }
+	_exit(0);
+}
+static void on_terminate() { on_crash(-1); }
+
 int main(int argc,char **argv)
 {
 	if(argc<5) { fprintf(stderr,"usage: store_drv seq <backends> <rounds> <ops> [filter] | conc <backend> <threads> <ops> <sids> <rounds>\n"); return 2; }
 	init_sids();
 	vt::out o; o.open();
+	gout=&o;
+	signal(SIGSEGV,on_crash); signal(SIGBUS,on_crash); signal(SIGABRT,on_crash); signal(SIGFPE,on_crash);
+	std::set_terminate(on_terminate);
 	long seed=vt::envl("VERIF_SEED",1);
 	std::string mode=argv[1];
 	if(mode=="seq") {
